@@ -28,18 +28,18 @@ var opNames = [...]string{"encrypt", "decrypt", "open", "close-session", "advanc
 
 // hist drives a sequential history of operations over a world.
 type hist struct {
-	w       *world.World
-	t       *simrt.Tape
-	gen     world.GenOpts
-	parts   []string
-	weights [opKinds]int
-	maxProc int
+	w               *world.World
+	t               *simrt.Tape
+	gen             world.GenOpts
+	parts           []string
+	weights         [opKinds]int
+	maxProc         int
 	samePolicyTimes bool // all processes share Expire/Revoke/Precision of the first
-	base    world.PolicyCfg
-	trace   []string
-	hooks   histHooks
-	payloadClasses []int
-	seenLog int
+	base            world.PolicyCfg
+	trace           []string
+	hooks           histHooks
+	payloadClasses  []int
+	seenLog         int
 }
 
 type histHooks struct {
